@@ -130,8 +130,8 @@ inductive Task where
 inductive SEv where
   | connection (rs : RS) (trName : String) (proto : Nat)
   | close (reason : String) (rs : RS)
-  | packetCreate (t : PT)
-  | flush (batch : List Pkt)
+  | packetCreate (p : Pkt) (cb : Option Nat)      -- the packet, and the id of the callback handed to Send (not printed)
+  | flush (batch : List Pkt) (cbs : List Nat)     -- the batch handed over, and the callbacks that travel with it (not printed)
   | drain
   | cb (id : Nat)
   | upgrading
@@ -188,8 +188,8 @@ def kindStr : Kind → String | .text => "t" | .binary => "b"
 def SEv.render : SEv → String
   | .connection rs trName proto => s!"connection:{rs.name}:{trName}:{proto}"
   | .close reason rs => s!"close:{reason}:{rs.name}"
-  | .packetCreate t => s!"packetCreate:{t.name}"
-  | .flush batch => s!"flush:{pktChars batch}"
+  | .packetCreate p _ => s!"packetCreate:{p.typ.name}"
+  | .flush batch _ => s!"flush:{pktChars batch}"
   | .drain => "drain"
   | .cb id => s!"cb:{id}"
   | .upgrading => "upgrading"
@@ -421,7 +421,7 @@ def flushF : Nat → World → Nat → World
     if s.rs = .closed ∨ ¬ (w.tr s.tr).writable ∨ s.wbuf.isEmpty then w else
     let batch := s.wbuf
     let w := w.setSock sid fun s => { s with wbuf := [], sentCb := s.sentCb ++ [s.packetsFn], packetsFn := [] }
-    let w := w.sev sid (.flush batch)
+    let w := w.sev sid (.flush batch s.packetsFn)
     let w := w.ev s!"srv:flush:s{sid}:{pktChars batch}"
     let w := trSend w s.tr batch
     let w := w.sev sid .drain
@@ -448,8 +448,9 @@ def closeTransport (w : World) (sid : Nat) (discard : Bool) : World := closeTran
 /-- `socket.sendPacket` -/
 def sendPacket (w : World) (sid : Nat) (p : Pkt) (cb : Option Nat) : World :=
   let s := w.sock sid
-  if s.rs = .closing ∨ s.rs = .closed then w else
-  let w := w.sev sid (.packetCreate p.typ)
+  -- (sessions are indices here: an index that names no session is a no-op, as in `sockOnClose`)
+  if s.rs = .closing ∨ s.rs = .closed ∨ w.socks.size ≤ sid then w else
+  let w := w.sev sid (.packetCreate p cb)
   let w := w.setSock sid fun s =>
     { s with wbuf := s.wbuf ++ [p], packetsFn := match cb with | some id => s.packetsFn ++ [id] | none => s.packetsFn }
   flush w sid
